@@ -3,6 +3,7 @@ import RulioModel.QuerySpec
 /-! # Lemmas for C03 (query semantics) -/
 
 namespace QueryProofs
+open QSpec
 
 /-! ## `mapM` in `Except` -/
 
@@ -718,5 +719,126 @@ theorem exec_code_ok (srch : Srch) (t : J) (val : Bs → J) (bss : List Bs)
     execQ srch (.code t) bss = .ok (bss.flatMap fun bs => codeKeep bs (val bs)) := by
   rw [exec_code_eq]
   exact bindEach_ok_of_forall _ _ bss (fun bs hm => by unfold codeOne; rw [bind_ok _ _ _ (h bs hm)]; rfl)
+
+/-! ## fuel -/
+
+theorem sz_pos (j : J) : 1 ≤ sz j := by cases j <;> simp [sz] <;> omega
+
+theorem sz_mem_le {x : J} {xs : List J} (h : x ∈ xs) : sz x ≤ szL xs := by
+  induction xs with
+  | nil => cases h
+  | cons y ys ih =>
+    rw [szL]
+    cases h with
+    | head => omega
+    | tail _ h => have := ih h; omega
+
+theorem sz_lookup_le {k : String} {q : List (String × J)} {v : J} (h : lookupKey k q = some v) : sz v ≤ szO q := by
+  induction q with
+  | nil => simp [lookupKey] at h
+  | cons kv r ih =>
+    obtain ⟨k', w⟩ := kv
+    rw [szO]
+    rw [lookupKey] at h
+    by_cases hk : (k == k') = true
+    · rw [if_pos hk] at h; cases h; omega
+    · rw [if_neg hk] at h; have := ih h; omega
+
+theorem mapM_congr' {α β} (f g : α → Except LErr β) (l : List α) (h : ∀ x ∈ l, f x = g x) : l.mapM f = l.mapM g := by
+  induction l with
+  | nil => rfl
+  | cons x xs ih =>
+    rw [List.mapM_cons, List.mapM_cons, h x (by simp), ih (fun y hy => h y (by simp [hy]))]
+
+/-- any fuel ≥ the size of the document gives the same parse: the fuel that callers pass
+(`4 * sz q + 4`) never influences the result -/
+theorem parse_fuel_irrelevant : ∀ (n m : Nat) (j : J), sz j ≤ n → sz j ≤ m → parseQuery n j = parseQuery m j
+  | 0, _, j, h, _ => by have := sz_pos j; omega
+  | _, 0, j, _, h => by have := sz_pos j; omega
+  | n + 1, m + 1, j, hn, hm => by
+    cases j with
+    | obj q =>
+      cases q with
+      | nil => rw [parseQuery.eq_2, parseQuery.eq_2]
+      | cons kv r =>
+        have hq : sz (.obj (kv :: r)) = 1 + szO (kv :: r) := by rw [sz]
+        rw [parseQuery.eq_3 n _ (by simp), parseQuery.eq_3 m _ (by simp)]
+        have hand : ∀ xs, Obj.get? (kv :: r) "and" = some (.arr xs) →
+            xs.mapM (parseQuery n) = xs.mapM (parseQuery m) := by
+          intro xs hx
+          apply mapM_congr'
+          intro x hxm
+          have h1 := sz_lookup_le hx
+          have h2 := sz_mem_le hxm
+          rw [sz] at h1
+          exact parse_fuel_irrelevant n m x (by omega) (by omega)
+        have hor : ∀ xs, Obj.get? (kv :: r) "or" = some (.arr xs) →
+            xs.mapM (parseQuery n) = xs.mapM (parseQuery m) := by
+          intro xs hx
+          apply mapM_congr'
+          intro x hxm
+          have h1 := sz_lookup_le hx
+          have h2 := sz_mem_le hxm
+          rw [sz] at h1
+          exact parse_fuel_irrelevant n m x (by omega) (by omega)
+        have hnot : ∀ a, Obj.get? (kv :: r) "not" = some (.obj a) →
+            parseQuery n (.obj a) = parseQuery m (.obj a) := by
+          intro a hx
+          have h1 := sz_lookup_le hx
+          exact parse_fuel_irrelevant n m _ (by omega) (by omega)
+        generalize kv :: r = q at *
+        split
+        · rfl
+        · split
+          · rfl
+          · split
+            · cases h : Obj.get? q "and" with
+              | none => rfl
+              | some v =>
+                cases v with
+                | arr xs => dsimp only; rw [hand _ h]
+                | _ => rfl
+            · split
+              · cases h : Obj.get? q "or" with
+                | none => rfl
+                | some v =>
+                  cases v with
+                  | arr xs => dsimp only; rw [hor _ h]
+                  | _ => rfl
+              · split
+                · cases h : Obj.get? q "not" with
+                  | none => rfl
+                  | some v =>
+                    cases v with
+                    | obj a => dsimp only; rw [hnot _ h]
+                    | _ => rfl
+                · rfl
+    | _ => rw [parseQuery.eq_4 _ n (by simp) (by simp), parseQuery.eq_4 _ m (by simp) (by simp)]
+
+
+theorem pointwise_map {α β} (R : α → β → Prop) (f : α → β) : ∀ (l : List α), (∀ x ∈ l, R x (f x)) → Pointwise R l (l.map f)
+  | [], _ => .nil
+  | x :: xs, h => .cons (h x (by simp)) (pointwise_map R f xs (fun y hy => h y (by simp [hy])))
+
+theorem flatten_map_eq_flatMap {α β} (l : List α) (f : α → List β) : (l.map f).flatten = l.flatMap f := by
+  induction l with
+  | nil => rfl
+  | cons x xs ih => rw [List.map_cons, List.flatten_cons, ih, List.flatMap_cons]
+
+/-- `or` on any list of incoming bindings, given every disjunct's result on every singleton -/
+theorem exec_or_spec' (srch : Srch) (qs : List Q) (sc : Bool) (res : Bs → Q → List Bs) (bss : List Bs)
+    (h : ∀ bs ∈ bss, ∀ q ∈ qs, execQ srch q [bs] = .ok (res bs q)) :
+    execQ srch (.or qs sc) bss =
+      .ok (bss.flatMap fun bs => if sc then orFirst (qs.map (res bs)) else qs.flatMap (res bs)) := by
+  rw [exec_or_eq]
+  apply bindEach_ok_of_forall
+  intro bs hbs
+  have hp := pointwise_map (fun q r => execQ srch q [bs] = .ok r) (res bs) qs (h bs hbs)
+  cases sc with
+  | true => exact execOr_first srch bs qs _ hp
+  | false =>
+    rw [execOr_all srch bs qs _ hp, flatten_map_eq_flatMap]
+    rfl
+
 
 end QueryProofs
